@@ -27,6 +27,32 @@ func suiteSizing(c *Ctx) {
 			c.rep.Cases++
 			c.emit("size.bloom %d %d %d %d", n, math.Float64bits(p), f.GetCap(), f.GetNumHashes())
 			c.op("dims.bloom")
+			if n <= 5000 {
+				// the Redis constructor computes its dimensions separately
+				if g, err := gostatix.NewRedisBloomFilterWithParameters(n, p); err == nil && g != nil {
+					c.emit("size.bloom %d %d %d %d", n, math.Float64bits(p), g.GetCap(), g.GetNumHashes())
+					c.op("dims.bloom.redis")
+					if g.GetCap() != f.GetCap() || g.GetNumHashes() != f.GetNumHashes() {
+						c.fail([]string{"C15", "C08"}, "bloom-dims-differ-between-backends", fmt.Sprintf("(n=%d,p=%g): in-memory (%d,%d) vs Redis (%d,%d)", n, p, f.GetCap(), f.GetNumHashes(), g.GetCap(), g.GetNumHashes()), nil)
+					}
+				}
+			}
+		}
+	}
+	for _, e := range []float64{0.5, 0.05, 0.003} {
+		for _, d := range []float64{0.5, 0.05} {
+			if s, err := gostatix.NewCountMinSketchRedisFromEstimates(e, d); err == nil && s != nil {
+				c.rep.Cases++
+				c.emit("size.cms %d %d %d %d", math.Float64bits(e), math.Float64bits(d), s.GetRows(), s.GetColumns())
+				c.op("dims.cms.redis")
+			}
+		}
+	}
+	for _, size := range []uint64{8, 100} {
+		if f, err := gostatix.NewCuckooFilterRedisWithErrorRate(size, 2, 10, 0.01); err == nil && f != nil {
+			c.rep.Cases++
+			c.emit("size.cuckoo %d %d %d %d %d", size, 2, math.Float64bits(0.01), f.Size(), f.FingerPrintLength())
+			c.op("dims.cuckoo.redis")
 		}
 	}
 	for _, e := range []float64{0.9, 0.5, 0.1, 0.01, 0.001, 0.0003} {
